@@ -243,6 +243,8 @@ def gen_dissim(rng, kinds=None, labels=None, allow_component_delta=True):
             for j in range(i):
                 m[i][j] = m[j][i] = round(rng.choice([0.0, 0.25, 0.5, 1.0, rng.random()]), 4)
         spec = {"kind": kind, "cats": cats, "matrix": m, "delta": delta}
+        if rng.random() < 0.15:    # the caller goes on using (overwriting) the array it handed over
+            spec["caller_edits_matrix"] = True
         r = rng.random()
         if r < 0.3:      # the matrix as users write it down: whole numbers in an integer array, or a boolean "differs" table
             dt = "int" if r < 0.2 else "bool"
@@ -266,7 +268,19 @@ def gen_dissim(rng, kinds=None, labels=None, allow_component_delta=True):
             if rng.random() < 0.3:   # positions far from 0 (time stamps, ids): only their distances matter
                 base = rng.choice([1.7e9, 2.0 ** 24, 1e7, -3e8])
                 p = [base + float(rng.choice([0, 1, 2, 3, 5, 8, 60, 3600])) for _ in cats]
-        return {"kind": kind, "cats": cats, "p": p, "delta": delta}
+        spec = {"kind": kind, "cats": cats, "p": p, "delta": delta}
+        if p is not None and all(float(x).is_integer() for x in p) and rng.random() < 0.4:
+            # whole-number positions as users hold them: a numpy integer array (unsigned when none is negative) or plain ints
+            lo, hi = min(p), max(p)
+            if abs(lo) >= 2 ** 31 or abs(hi) >= 2 ** 31:
+                spec["p_dtype"] = "pyint"
+            elif lo >= 0 and hi < 256:
+                spec["p_dtype"] = rng.choice(["uint8", "uint16", "pyint"])
+            elif lo >= 0:
+                spec["p_dtype"] = rng.choice(["uint32", "uint64"] + (["uint16"] if hi < 65536 else []))
+            else:
+                spec["p_dtype"] = rng.choice(["int64", "int32", "pyint"])
+        return spec
     if kind == "numerical":
         cats = list(labels or rng.sample(LABELS_NUM, rng.randint(1, 6)))
         rng.shuffle(cats)
@@ -344,12 +358,18 @@ def build_dissim(dspec):
         return pa.AbsoluteCategoricalDissimilarity(delta_empty=d)
     if k == "precomputed":
         dt = {"int": np.int64, "bool": np.bool_, "float64": np.float64}.get(dspec.get("matrix_dtype"), np.float32)
-        return pa.PrecomputedCategoricalDissimilarity(SortedSet(dspec["cats"]),
-                                                      np.array(dspec["matrix"]).astype(dt), delta_empty=d)
+        arr = np.array(dspec["matrix"]).astype(dt)
+        obj = pa.PrecomputedCategoricalDissimilarity(SortedSet(dspec["cats"]), arr, delta_empty=d)
+        if dspec.get("caller_edits_matrix"):
+            arr[...] = (arr == 0) if dt is np.bool_ else arr + 3    # the dissimilarity was defined by the values given at construction
+        return obj
     if k == "levenshtein":
         return pa.LevenshteinCategoricalDissimilarity(list(dspec["cats"]), delta_empty=d)
     if k == "ordinal":
-        return pa.OrdinalCategoricalDissimilarity(list(dspec["cats"]), p=dspec.get("p"), delta_empty=d)
+        p = dspec.get("p")
+        if p is not None and dspec.get("p_dtype"):
+            p = [int(x) for x in p] if dspec["p_dtype"] == "pyint" else np.array([int(x) for x in p], dtype=dspec["p_dtype"])
+        return pa.OrdinalCategoricalDissimilarity(list(dspec["cats"]), p=p, delta_empty=d)
     if k == "numerical":
         return pa.NumericalCategoricalDissimilarity(list(dspec["cats"]), delta_empty=d)
     if k == "combined":
